@@ -37,6 +37,14 @@ def S():
     return _S
 
 
+def gen(rng):
+    """the writer of a name tree is todo!() (finding C15-c): a planted name tree would turn every write half of a case
+    into that panic, which is not what this property is about"""
+    G = T.Gen(S(), rng)
+    G.skip_hands = {"NameTree<Primitive>"}
+    return G
+
+
 RESOLVING = {0, 1, 2, 3, 4, 5, 6, 8, 21, 22, 23, 25, 26}
 DEFERRING = {7, 9, 27}
 KINDS = ["free", "gap", "at-size", "beyond"]
@@ -125,7 +133,7 @@ def cases_for(rng, sidx, tier):
     rwt = s["read"] and s["write"]
     fields = [f for f in s["fields"] if not f["flags"] & 5]
     for f in fields:
-        G = T.Gen(S(), rng)
+        G = gen(rng)
         opt = f["ty"][0] == 20
         inner = f["ty"][1:] if opt else f["ty"]
         cls = holder_class(G, inner)
@@ -143,7 +151,7 @@ def cases_for(rng, sidx, tier):
         if tier == "quick":
             combos = rng.sample(combos, min(len(combos), 3 if opt else 2))
         for kind, holder, o in combos:
-            G = T.Gen(S(), rng)
+            G = gen(rng)
             d = G.struct(sidx, force={f["name"]: False}, extras=False)
             model = not T.required_unmodelled(G, sidx) and G.modelled([30, sidx])
             data, mentries, size, nums = build_file(G.objs)
